@@ -42,8 +42,10 @@ partial def parseS (j : Json) : S :=
     | .ok (.bool b) => .leaf b
     | _ =>
       let allOf := (getArr j "allOf").map parseS
+      let anyOf := (getArr j "anyOf").map parseS
       let items := match j.getObjVal? "items" with | .ok .null => none | .ok x => some (parseS x) | _ => none
-      .node (getBool j "own") allOf items
+      let nt := match j.getObjVal? "not" with | .ok .null => none | .ok x => some (parseS x) | _ => none
+      .node (getBool j "own") nt anyOf allOf items
 
 open Recursion in
 partial def parseJ (j : Json) : J :=
@@ -58,18 +60,25 @@ def handleSchema (j : Json) : Json :=
   let v := parseJ (getD j "value" Json.null)
   let r := Recursion.visit (Recursion.envOf defs) 400 root v
   let cyc := Recursion.hasUnguardedCycle defs
+  -- the exclusion of the theorem (`Props.C10.ExclRec`): the rank certificate fails
+  let excl := !Recursion.guardedB defs
   let ecyc := Recursion.hasEmptinessCycle defs 400
   let model := match r with | .ok true => "accept" | .ok false => "reject" | .diverge => "diverge"
-  let anyRef := (Recursion.unguardedRefs root).length > 0 || defs.any (fun s => match s with | .node _ _ (some _) => true | _ => false)
+  let anyRef := (Recursion.unguardedRefs root).length > 0 || defs.any (fun s => match s with | .node _ _ _ _ (some _) => true | _ => false)
+  let uses (p : Recursion.S → Bool) : Bool := (root :: defs).any p
   let branches :=
+    (if uses (fun s => match s with | .node _ (some _) _ _ _ => true | _ => false) then ["rec.not"] else []) ++
+    (if uses (fun s => match s with | .node _ _ (_ :: _) _ _ => true | _ => false) then ["rec.anyOf"] else []) ++
     (if cyc then ["rec.unguarded-cycle"] else []) ++
     (if ecyc then ["rec.emptiness-cycle"] else []) ++
     (if r = .ok true && anyRef then ["rec.accept"] else []) ++
     (if r = .diverge then ["rec.diverge"] else []) ++
     (if anyRef then ["rec.ref-or-items"] else []) ++
     (if r = .ok false then ["rec.reject"] else [])
-  jobj [("model", jobj [("res", model)]), ("spec", jobj [("panic", Json.bool false)]),
-        ("excl", jstrs (if r = .diverge && cyc then ["UnguardedRecursion"] else [])),
+  -- `cyc_agree`: the depth-bounded cycle search and the rank certificate say the same about this environment
+  -- (the theorem is about the certificate; a disagreement is reported as a model/implementation disagreement)
+  jobj [("model", jobj [("res", model), ("cyc_agree", Json.bool (cyc == excl))]), ("spec", jobj [("panic", Json.bool false)]),
+        ("excl", jstrs (if r = .diverge && excl then ["UnguardedRecursion"] else [])),
         ("branches", jstrs branches)]
 
 /-! ### op "traffic": document features read from the document JSON itself -/
